@@ -131,3 +131,31 @@ pub open spec fn all_edited(w: World, cfg: Config, k: int) -> bool {
         is_token_insertion(w.orig[w.files[i]], found(w.orig[w.files[i]], cfg), w.fs[w.files[i]])
 }
 }
+verus! {
+pub proof fn lemma_file_missing_zero(files: Seq<Seq<char>>, fs: Map<Seq<char>, Seq<u8>>, cfg: Config, k: int, i: int)
+    requires 0 <= i < k, tree_missing(files, fs, cfg, k) == 0
+    ensures file_missing(fs, cfg, files[i]) == 0
+    decreases k
+{
+    lemma_tree_missing_nonneg(files, fs, cfg, k - 1);
+    let p = files[k - 1];
+    if readable(p) { lemma_n_missing_bounds(found(fs[p], cfg), found(fs[p], cfg).len() as int); }
+    if i < k - 1 { lemma_file_missing_zero(files, fs, cfg, k - 1, i); }
+}
+// a tree in which nothing lacks a reference is already "completely edited"
+pub proof fn lemma_all_edited_when_none_missing(w: World, cfg: Config)
+    requires
+        tree_missing(w.files, w.orig, cfg, w.files.len() as int) == 0,
+        forall|i: int| 0 <= i < w.files.len() ==> w.fs[#[trigger] w.files[i]] == w.orig[w.files[i]],
+    ensures all_edited(w, cfg, w.files.len() as int)
+{
+    assert forall|i: int| 0 <= i < w.files.len() && readable(#[trigger] w.files[i]) implies
+        is_token_insertion(w.orig[w.files[i]], found(w.orig[w.files[i]], cfg), w.fs[w.files[i]]) by {
+        lemma_file_missing_zero(w.files, w.orig, cfg, w.files.len() as int, i);
+        let c = w.orig[w.files[i]];
+        let es = found(c, cfg);
+        lemma_edited_noop(c, es, Seq::<int>::empty());
+        assert(c == edited(c, es, Seq::<int>::empty()));
+    }
+}
+}
